@@ -63,7 +63,7 @@ def run(ctx):
     ctx.trusted += ["coq/Machine/Machine.v as a description of _corearray.py/_propagation.py (tied by the T-src census of value-dependent sites and by the correspondence)",
                     "`sem` = onnxruntime evaluating one node in isolation equals evaluating it inside a larger graph (graph optimiser) — not modelled, sampled by the correspondence",
                     "tools/translate/gen_src.py census()"]
-    ctx.assumes += ["neutrality of the logical_and / logical_or shortcuts is a hypothesis of C01_sim (Forall neutral p); it is exercised by the programs, not yet proved at tensor level",
+    ctx.assumes += ["neutrality of shortcuts is a hypothesis of C01_sim (Forall neutral p); for logical_and / logical_or it is proved at tensor level (C01_logical_and/or_shortcut_is_neutral, Machine/Shortcuts.v)",
                     "the where() x==y shortcut with a lazy condition is NOT neutral (known finding C01-where-eq-shortcut-lazy-condition)"]
     ctx.static_build()
     census_tie(ctx)
